@@ -12,7 +12,8 @@ ID = 'C28'
 TECHNIQUE = ('table comparison against the installed CPython headers and the frozen data-model table; evaluation of the compiler\'s '
              'generator functions (generate_richcmp_function, generate_binop_function, BinopSlot.__init__) by a small AST evaluator on mock '
              'scopes, followed by evaluation of the emitted C switch on the three outcomes of a total order; path exploration of the three '
-             'instantiations of the BinopSlot template (mini Tempita expansion, #if arms enumerated, type-test flags forked over {0,1})')
+             'instantiations of the BinopSlot template (mini Tempita expansion, #if arms enumerated, type-test flags forked over {0,1}, call results tracked as tested / untested against NotImplemented); '
+             'the total_ordering root read off functools itself; predicate agreement between the emitter and the slot-table side of each synthesised slot function')
 DECIDES = ('(ORD) every slot table of TypeSlots.SlotTable lists its rows in the member order of the CPython struct it initialises '
            '(PyNumberMethods, PySequenceMethods, PyMappingMethods, PyAsyncMethods, PyBufferProcs, PyTypeObject from the first table row on), each '
            'SuiteSlot pairs the table with the struct its tp_as_* member points to, BinopSlot rows only occur in the number suite; '
@@ -26,11 +27,16 @@ DECIDES = ('(ORD) every slot table of TypeSlots.SlotTable lists its rows in the 
            '(TPL) every variable the BinopSlot template reads is supplied by generate_binop_function, slot_type and the arity of the generated function are those of '
            'the header typedef of the slot, call_left/call_right call the left/reflected method with (left, right)/(right, left) and the base-type helper with (left, right); '
            '(DISP) on every path of the generated slot function, for overloads (1,1), (1,0), (0,1): call_left and call_right are each evaluated at most once, a user method only '
-           'under a flag computed from a type test of its self operand, and the function does not give up with NotImplemented while a set flag\'s call has not been tried.')
-NOT_DECIDED = ('which of call_left/call_right runs first inside the BinopSlot template for subclass operands, and whether a NotImplemented result of the first call is really '
-               'followed by the second (a `return res` without the test is not seen); the run-time outcome for same-exact-type operands beyond the structural rule C28-SAME (registered after the repair e7f0c120c); '
+           'under a flag computed from a type test of its self operand, and the function does not give up with NotImplemented while a set flag\'s call has not been tried; '
+           'the result of a call is returned without a NotImplemented test only when the other call has been tried or the operands have the same type; every flag expression type-checks '
+           'one operand only and contains a test that admits subclass instances (per #if arm); {{func_name}}_maybe_call_slot passes its (left, right) on in order; '
+           '(TO, call order) under total_ordering every derived comparison asks first the user method functools.total_ordering would use (root read off the standard library); '
+           '(TPL) also over entries that are not special methods (treated as undefined); '
+           '(GEN) ModuleNode emits tp_richcompare / the nb_* slot function under the same defines_any_special name set under which RichcmpSlot / SyntheticSlot.slot_code name it in the slot; '
+           'get_special_method_signature gives the six comparison methods a binary special signature.')
+NOT_DECIDED = ('which of call_left/call_right runs first inside the BinopSlot template for subclass operands; the run-time outcome for same-exact-type operands beyond the structural rule C28-SAME (registered after the repair e7f0c120c); '
                'which of __eq__/__ne__ is consulted by a derived ordering; slot inheritance and the type-spec path (CYTHON_USE_TYPE_SPECS) beyond slot names; '
-               'in-place operator fallback (done by CPython itself); the choice of the total_ordering root (max of names, as functools).')
+               'in-place operator fallback (done by CPython itself); comparison methods of extern base types (`!=` derived from __eq__ although the extern parent defines __ne__).')
 ASSUMPTIONS = ['the installed CPython headers (sysconfig include dir) describe the struct layout the generated C is compiled against',
                'user comparison methods are consistent with one total order (the quantifier of the truth-table clause)']
 
@@ -70,7 +76,13 @@ MUTATIONS = [
     ('Cython/Utility/ExtensionTypes.c', 'BinopSlot: call_left block duplicated', 'C28-DISP call_left:once'),
     ('Cython/Utility/ExtensionTypes.c', 'BinopSlot: reflected-first branch guarded by maybe_self_is_left', 'C28-DISP call_right:self'),
     ('Cython/Utility/ExtensionTypes.c', 'BinopSlot: maybe_self_is_right computed from PyType_IsSubtype(Py_TYPE(left), ...)', 'C28-DISP call_right:self'),
-    ('Cython/Utility/ExtensionTypes.c', 'BinopSlot: `return res;` right after call_left (no NotImplemented test)', 'MISSED (see NOT_DECIDED)'),
+    ('Cython/Utility/ExtensionTypes.c', 'BinopSlot: `return res;` right after call_left (no NotImplemented test)', 'C28-DISP call_left:result-untested (fourth round)'),
+    # fourth round (the full list with patches is in /verif/mutants/C28/)
+    ('Cython/Compiler/ModuleNode.py', 'seed C28d: total_ordering source = first of richcmp_special_methods order; min(comp_names)', 'C28-TO richcmp:source'),
+    ('Cython/Utility/ExtensionTypes.c', 'maybe_call_slot calls slot(right, left); late flag uses Py_TYPE(right) == type; own-slot shortcut of the right flag tests Py_TYPE(left)', 'C28-DISP maybe_call_slot:args / flags:no-subtype-test / flags:mixed-operands'),
+    ('Cython/Compiler/ModuleNode.py', 'slot function generated only for defines_any_special([left method]); TypeSlots: RichcmpSlot.slot_code tests [\'__eq__\'] only; get_special_method_signature without the richcmp branch', 'C28-GEN (3 variants)'),
+    ('Cython/Compiler/ModuleNode.py', 'get_slot_method_cname ignores entry.is_special', 'C28-TPL (non-special entry)'),
+    ('Cython/Compiler/ModuleNode.py', '`!=` derived from __eq__ also with an extern parent', 'MISSED (run-time methods of the extern base)'),
     # behaviour-preserving edits that stay silent
     ('Cython/Utility/ExtensionTypes.c', 'BinopSlot: flags and res renamed; reset replaced by finishing inside the branch (`res = call_left; return res;`); final if inverted with early return; `res == Py_NotImplemented` with else-return', 'silent'),
     ('Cython/Utility/ExtensionTypes.c', 'BinopSlot: the FINDING_1 patch (`same_type` local, `&& !same_type`, `|| same_type`)', 'silent'),
@@ -585,11 +597,37 @@ def expected_ops(defined, total_ordering):
     return a
 
 
+_ROOT_CACHE = {}
+
+
+def functools_root(defined):
+    """The user-defined ordering method functools.total_ordering derives a missing comparison from ("prefer __lt__ to __le__ to __gt__ to __ge__"),
+    read off the standard library itself: a class with recording methods is decorated and the first user method a derived operator calls is returned."""
+    have = tuple(m for m in ORDER if m in defined)
+    missing = [m for m in ORDER if m not in have]
+    if not have or not missing:
+        return None
+    if have not in _ROOT_CACHE:
+        import functools
+        calls = []
+
+        def rec(name):
+            return lambda self, other: (calls.append(name), True)[1]
+        ns = {m: rec(m) for m in have}
+        ns['__eq__'] = lambda self, other: False
+        ns['__hash__'] = lambda self: 0
+        cls = functools.total_ordering(type('_C28Probe', (), ns))
+        getattr(cls(), missing[0])(cls())
+        _ROOT_CACHE[have] = calls[0] if calls else None
+    return _ROOT_CACHE[have]
+
+
 def check_switch(sw, defined, total_ordering):
     """-> [(key, message)] for one scenario."""
     probs = []
     exp = expected_ops(defined, total_ordering)
     root = max(set(defined) & set(ORDER)) if (set(defined) & set(ORDER)) else None
+    ref_root = functools_root(defined) if total_ordering else None
     sc = '{%s}%s' % (', '.join(sorted(defined)), ' + total_ordering' if total_ordering else '')
     for meth, label in H.RICHCMP.items():
         if meth in defined:
@@ -607,6 +645,15 @@ def check_switch(sw, defined, total_ordering):
                 probs.append((key, 'with %s defined, case %s of the generated tp_richcompare misbehaves: %s' % (sc, label, e.what)))
                 break
             want = sw.TRUE if outcome in TRUTH[meth] else sw.FALSE
+            if ref_root and meth in ORDER and meth not in defined and meth in exp and res is not sw.NOTIMPL:
+                # call order: the derived operator asks the same user method first as functools.total_ordering does
+                first = next((c for c in calls if c in ORDER), None)
+                if first != ref_root:
+                    probs.append(('richcmp:source:%s' % '+'.join(m.strip('_') for m in ORDER if m in defined),
+                                  'with %s defined, the derived `%s` (case %s) calls %s first; functools.total_ordering derives the missing comparisons from %s '
+                                  '(priority __lt__ > __le__ > __gt__ > __ge__): another user method runs (call order, side effects) and the result differs when the two methods '
+                                  'do not accept the same operands (one returns NotImplemented)' % (sc, meth, label, first or 'no ordering method', ref_root)))
+                    break
             if res is sw.NOTIMPL:
                 if meth in exp:
                     why = 'the method is defined' if meth in defined else ('object.__ne__ derives it from __eq__' if meth == '__ne__' else 'total_ordering derives it from %s' % root)
@@ -843,8 +890,11 @@ def rule_TPL(ctx, ext):
                 sn = next(iter(row.signames))
             else:
                 raise AnalysisError('BinopSlot %s: cannot determine its signature' % row.slot)
-            for ldef, rdef in ((True, True), (True, False), (False, True)):
-                key0 = 'binop:%s:%s%s' % (row.slot, 'L' if ldef else '-', 'R' if rdef else '-')
+            # complete partition of what scope.lookup(name) can return per method: a special-method entry (S), nothing (-), an entry that is
+            # not a special method (p: e.g. a cdef attribute of that name) — the last one must be treated like "not defined"
+            for lstate, rstate in (('S', 'S'), ('S', '-'), ('-', 'S'), ('S', 'p'), ('p', 'S')):
+                ldef, rdef = lstate == 'S', rstate == 'S'
+                key0 = 'binop:%s:%s%s' % (row.slot, {'S': 'L'}.get(lstate, lstate), {'S': 'R'}.get(rstate, rstate))
                 r.inst(key0, sample='%s with %s%s' % (row.slot, left if ldef else '', (' ' + right) if rdef else ''))
                 captured = []
 
@@ -862,6 +912,10 @@ def rule_TPL(ctx, ext):
                     defs[left] = NS('entry', func_cname=cname_of(left), is_special=True)
                 if rdef:
                     defs[right] = NS('entry', func_cname=cname_of(right), is_special=True)
+                if lstate == 'p':
+                    defs[left] = NS('entry', func_cname='plain_' + cname_of(left), is_special=False)
+                if rstate == 'p':
+                    defs[right] = NS('entry', func_cname='plain_' + cname_of(right), is_special=False)
                 scope = NS('scope', directives={'c_api_binop_methods': False}, lookup=lambda name, d=defs: d.get(name), lookup_here=lambda name, d=defs: d.get(name),
                            mangle_internal=lambda s: '__pyx_%s_C' % s, parent_type=NS('type', typeptr_cname='TYPEPTR', is_extension_type=True))
                 slot = NS('slot', slot_name=row.slot, user_methods=list(um), is_binop=True, preprocessor_guard_code=lambda: None,
@@ -899,4 +953,4 @@ def rule_TPL(ctx, ext):
 def run(ctx):
     ext = extract_tables(ctx)
     from ..rules import sC28
-    return [rule_ORD(ctx, ext), rule_DUN(ctx, ext), rule_SIG(ctx, ext), rule_TO(ctx), rule_TPL(ctx, ext), sC28.rule_dispatch(ctx), sC28.rule_same_type(ctx)]
+    return [rule_ORD(ctx, ext), rule_DUN(ctx, ext), rule_SIG(ctx, ext), rule_TO(ctx), rule_TPL(ctx, ext), sC28.rule_dispatch(ctx), sC28.rule_same_type(ctx), sC28.rule_gen(ctx)]
